@@ -145,7 +145,8 @@ ADDITIONS = {
     "subset of one or two records taken out by the first), the outcome x fault matrix focused on ack-path faults (position write begin / "
     "set / commit failures, empty positions, ack stream failures) and the V2MultiAck histories replayed on the real fan-out arbiter."),
     "C05": (" Families as C04, incl. the holes family over batches of 5..9 records; the SharedSink.tla behaviours replayed on the real v2 "
-    "workers (one writer at a time, write order, nothing written after a failed pass)."),
+    "workers (one writer at a time, write order, nothing written after a failed pass); a node-level family on the real v1 FanoutNode "
+    "(large / small records, immediate rejections, slow branches) recorded in the same vocabulary and decided by the same DestOrder rule."),
     "C07": (" The V1AckChain histories (tolerated-nack budgets, failing dead-letter writes) are replayed on the real v1 ack chain. The rejection patterns include filtered records (positive outcomes of the window); the outcome x fault matrix is "
     "focused on DLQ faults (DLQ stream ending with io.EOF / context.Canceled / plain errors, stops with a dead-letter write in flight) and "
     "DlqStops is evaluated at the end of every run nobody stopped."),
@@ -168,6 +169,8 @@ ADDITIONS = {
     "record), and a Start landing between the apply's running-check and its import (store gate at the import's begin). Design level: "
     "LiveApply.tla (lock / verify / authorise / drain / import / restart, concurrent applies, environment starts) is model-checked; the "
     "idealised protocol holds, verify-before-lock and Start-not-excluded are refuted."),
+    "C19": (" Download-cache entries are laid out as the installer leaves them and come in four states: absent, intact, rotted to "
+    "another length, replaced by a well-formed archive of the same length with another payload."),
     "C18": " Requests are also made on a warm Service that has already served every carved-out (IP, port) pair.",
     "C02": (" SourcePersist.tla also models the error-channel send of a failed flush (guarded send: every callback returns; the "
     "code's plain send is refuted - observation O1 in DESIGN.md); the data-path families include the outcome x fault matrix."),
